@@ -285,12 +285,49 @@ func runCheck(id, tier, repo, verif string, overlay map[string][]byte, writeEvid
 		}
 		ctx := core.NewCtx(prog, id, tier, findings)
 		spec.Run(ctx)
-		out := verif
-		if !writeEvidence {
-			out, _ = os.MkdirTemp("", "sa-explain")
-			defer os.RemoveAll(out)
+		var extra map[string]any
+		if tier == "thorough" && overlay == nil {
+			extra = map[string]any{}
+			// (1) the second build configuration (CI builds with -tags intest, which flips util/intest.InTest)
+			prog2, err := core.Load(repoAbs, nil, "intest")
+			if err != nil {
+				fmt.Printf("UNDECIDED property=%s cannot analyse the tree with -tags intest: %v\n", id, err)
+				code = 2
+				return
+			}
+			ctx2 := core.NewCtx(prog2, id, tier, findings)
+			spec.Run(ctx2)
+			key := func(o core.Obligation) string { return o.Rule + "|" + o.Construct + "|" + o.Verdict }
+			have := map[string]bool{}
+			for _, o := range ctx.Obs {
+				have[key(o)] = true
+			}
+			added := 0
+			for _, o := range ctx2.Obs {
+				if (o.Verdict == core.Violation || o.Verdict == core.Undecided) && !have[key(o)] {
+					o.Detail = "[build -tags intest] " + o.Detail
+					ctx.Obs = append(ctx.Obs, o)
+					added++
+				}
+			}
+			extra["configurations"] = map[string]any{
+				"default": map[string]any{"obligations": len(ctx.Obs) - added, "functions": len(prog.Funcs)},
+				"intest":  map[string]any{"obligations": len(ctx2.Obs), "functions": len(prog2.Funcs), "verdicts_only_in_this_configuration": added},
+			}
+			fmt.Printf("thorough: second configuration (-tags intest): %d obligations, %d verdicts not seen in the default configuration\n", len(ctx2.Obs), added)
+			// (2) checker self-test on this property's seeded variants (in-memory overlays): recorded, printed,
+			// and deliberately NOT part of the exit code (a variant that no longer applies to a changed tree
+			// says nothing about the tree)
+			st := selftestFor(id, repoAbs, verif)
+			extra["selftest"] = st
+			fmt.Printf("thorough: self-test on %d seeded variants of %s: %d fired as expected, %d neutral variants silent, %d missed, %d skipped/not applicable\n",
+				st["variants"], id, st["mutants_fired"], st["neutral_silent"], st["missed"], st["skipped"])
+			for _, m := range st["missed_ids"].([]string) {
+				fmt.Printf("SELFTEST-MISS property=%s variant=%s\n", id, m)
+			}
 		}
-		code = ctx.Finish(out, spec.Explanation, start, nil)
+		out := verif
+		code = ctx.Finish(out, spec.Explanation, start, extra)
 	}()
 	return code
 }
